@@ -24,6 +24,116 @@ def gen(thorough, seed):
     return cases
 
 
+# ---------------------------------------------------------------------------------------------
+# periodic-fsync clause: an operation acknowledged more than one flush interval before a power failure survives it
+
+def periodic_case(rng, calls):
+    iv = rng.choice([50, 100])
+    ops = ["cfg interval=%d" % iv]
+    now = 0
+    next_tick = iv
+    for _ in range(rng.randint(6, 14)):
+        k = rng.choice(["ins", "ins", "ins", "del", "advance", "advance", "ploss"])
+        if k == "ins":
+            ops.append("ins id=%d x=%d" % (rng.randint(1, 4), rng.randint(1, 9)))
+        elif k == "del":
+            ops.append("del id=%d" % rng.randint(1, 4))
+        elif k == "advance":
+            target = now + rng.choice([1, iv // 2, iv, iv + 1, 2 * iv + 3, 5 * iv])
+            while next_tick <= target:                      # the server's timer fires at every multiple of the interval
+                ops.append("advance ms=%d" % (next_tick - now)); now = next_tick
+                ops.append("timer calls=%s" % calls)
+                next_tick += iv
+            if target > now:
+                ops.append("advance ms=%d" % (target - now)); now = target
+        else:
+            ops.append("ploss")
+    ops.append("advance ms=%d" % (next_tick - now)); now = next_tick
+    ops.append("timer calls=%s" % calls)
+    ops.append("advance ms=%d" % (iv + 1))
+    ops.append("ploss")
+    return ops
+
+
+def periodic_oracle(case):
+    raw, impl = case["raw"], case["impl"]
+    iv = int(re.search(r"interval=(\d+)", raw[0]).group(1))
+    acked = []                                                # (ack time, op)
+    fails = []
+    for i, (l, r) in enumerate(zip(raw, impl)):
+        if r.startswith("unknown-timer-call") or r.startswith(("bad-op", "<")):
+            fails.append(("harness", i, "%s -> %s" % (l, r))); break
+        m = re.match(r"ok t=(\d+)", r)
+        if m and l.startswith(("ins ", "del ")):
+            acked.append((int(m.group(1)), l))
+        if l == "ploss":
+            now = int(re.search(r"now=(\d+)", r).group(1))
+            states = r.split("states=", 1)[1].split("#")
+            # states allowed: the fold of a prefix of the acknowledged operations that contains at least every operation
+            # acknowledged more than one interval before `now`
+            jmin = sum(1 for t, _ in acked if now - t > iv)
+            allowed = set()
+            for j in range(jmin, len(acked) + 1):
+                cur = {}
+                for _, o in acked[:j]:
+                    f = dict(p.split("=") for p in o.split(" ")[1:])
+                    if o.startswith("ins"):
+                        cur[int(f["id"])] = int(f["x"])
+                    else:
+                        cur.pop(int(f["id"]), None)
+                allowed.add("[" + ",".join("%d:%d" % kv for kv in sorted(cur.items())) + "]")
+            for st in states:
+                if st not in allowed:
+                    lost = [o for t, o in acked[:jmin]]
+                    fails.append(("c01-periodic-loss", i, "power loss at t=%d ms (flush interval %d ms) may leave %s; %d operation(s) were acknowledged more than one "
+                                  "interval earlier (last: `%s` at t=%d) - allowed: %s" % (now, iv, st, jmin, lost[-1] if lost else "-", acked[jmin - 1][0] if jmin else 0, sorted(allowed))))
+                    return fails
+    return fails
+
+
+def periodic_extra(rep, thorough, seed):
+    from .. import corr
+    rc, out, err = common_run(["python3", os.path.join(ROOT, "translators", "xlate_timer.py")])
+    m = re.search(r"calls=(\S+)", out)
+    if rc != 0 or not m:
+        p = rep.write_replay("periodic_translator.txt", "the periodic task of kyrodb_server.rs could not be translated: %s %s\n" % (out, err))
+        rep.violation(p, no_input=True)
+        return [], {"periodic": {"translator": (out + err).strip()}}
+    calls = m.group(1)
+    rng = rng_for(seed, "C01/periodic")
+    cases = []
+    d = os.path.join(CORPUS, "C01")
+    for f in sorted(os.listdir(d)) if os.path.isdir(d) else []:
+        if f.endswith(".periodic"):
+            ops = corr.read_replay(os.path.join(d, f))[1]
+            cases.append([re.sub(r"calls=\S+", "calls=" + calls, l) for l in ops])      # the calls are the CURRENT source's
+    cases += [periodic_case(rng, calls) for _ in range(300 if thorough else 40)]
+    findings, nstates, checks = [], 0, 0
+    flat = [l for c in cases for l in c]
+    ann, res, herr, hrc = run_harness("periodic", flat, timeout=1800)
+    k = 0
+    for c in cases:
+        r = res[k:k + len(c)]; k += len(c)
+        cd = {"raw": c, "ann": c, "impl": r + ["<missing>"] * (len(c) - len(r)), "model": r, "engine": "periodic"}
+        for l, x in zip(c, cd["impl"]):
+            if l == "ploss" and "states=" in x:
+                checks += 1; nstates += len(x.split("states=", 1)[1].split("#"))
+        for kind, idx, msg in periodic_oracle(cd):
+            findings.append({"kind": "oracle", "engine": "periodic", "case": cd, "idx": idx, "msg": msg,
+                             "sig": {"engine": "periodic", "kind": kind}, "pred": None})
+    return findings, {"periodic": {"timer_calls_extracted_from_source": calls, "histories": len(cases), "power_loss_checks": checks,
+                                   "distinct_outcomes_seen": nstates,
+                                   "rule": "TieredEngine with persistence under FsyncPolicy::Periodic(50|100 ms) and a virtual monotonic clock; the server's "
+                                           "periodic task body (calls extracted from kyrodb_server.rs on every run) replayed at every multiple of the interval; "
+                                           "at random instants every directory a power failure may leave is recovered strictly: it must be the fold of a prefix "
+                                           "of the acknowledged operations containing all those acknowledged more than one interval earlier"}}
+
+
+def common_run(cmd):
+    from ..common import run as _run
+    return _run(cmd, cwd=ROOT)
+
+
 def run(tier, seed, replay):
     return run_persist_property(
         "C01", MODULE, TRUSTED, tier, seed, replay, gen,
@@ -36,4 +146,4 @@ def run(tier, seed, replay):
         "last fsync/fdatasync or everything written, and every prefix of the directory changes (create/rename/unlink) made since "
         "the last directory fsync; each distinct directory is recovered by the real code and must also be acked or acked+in-flight",
         ["power loss: whole-file granularity for un-synced bytes (synced-only or all), suffixes of un-synced directory changes",
-         "periodic-fsync clause: see coverage.periodic"])
+         "periodic-fsync clause: see coverage.periodic"], extra=periodic_extra)
